@@ -302,6 +302,12 @@ func (c *ExprCtx) pkgObj(p *types.Package, name string) TV {
 	if k, ok := o.(*types.Const); ok {
 		return c.constTV(k)
 	}
+	if _, ok := o.(*types.Var); ok && c.global != nil {
+		// a package-level variable of an imported package (io.Discard, io.EOF, ...)
+		if tv, ok := c.global(p, name); ok {
+			return tv
+		}
+	}
 	fail("%s.%s is not a constant", p.Name(), name)
 	return TV{}
 }
